@@ -14,6 +14,8 @@ R16.14 the wire-key maps the hook factories consult are collected over the whole
        from the nearest `Meta` alone loses the keys of every base class as soon as a subclass declares its own Meta
 R16.15 a handler of _structure_union that records why a variant was rejected keeps the nested error detail (the group walker `_extract_errors`),
        never `str(e)` alone: the message of a cattrs validation group is only its header, the offending field is in the sub-exceptions
+R16.16 the per-class hooks hand the payload / the instance to the generated (un)structure function as they received it: the Meta maps (rename overrides)
+       are the only key translation - no aliasing of keys, no dropping of null entries in front of it
 R16.13 both dataclass hook factories resolve the field types (get_type_hints with extras, written back) before cattrs sees the class
 """
 from __future__ import annotations
@@ -36,6 +38,7 @@ def run(repo: Repo, rep: Report, tier: str) -> None:
     cv.rule_field_types_resolved(repo, rep, "R16.13")
     rule_meta_maps_over_mro(repo, rep, "R16.14")
     rule_variant_errors_keep_detail(repo, rep, "R16.15")
+    rule_hooks_pass_values_through(repo, rep, "R16.16")
     rule_class_memo(repo, rep, "R16.9")
     rule_strip_descends(repo, rep, "R16.10")
     rule_memo_by_identity(repo, rep, "R16.12")
@@ -691,3 +694,42 @@ def rule_variant_errors_keep_detail(repo: Repo, rep, rule: str = "R16.15") -> No
         else:
             rep.ok(rule, sub, "the exception object itself is recorded", su.loc(recs[0]))
     rep.require(n >= 2, f"{rule}: only {n} rejected-variant record(s) found in _structure_union (floor 2)")
+
+
+# ------------------------------------------------------------------------------------------------ R16.16 the hooks pass the value through
+def rule_hooks_pass_values_through(repo: Repo, rep, rule: str = "R16.16") -> None:
+    """`_register_(un)structure_hooks_recursively` install, per dataclass, a hook that ends in `_make_dataclass_(un)structure_fn(cls)(value, ...)`.
+    The generated function already applies the wire-key maps (R16.11); anything done to the payload in front of it - accepting the Python field
+    name as an alias of the wire key, dropping null entries so that a default applies - makes a conforming document decode into another
+    instance than it describes (`owner_name` is a wire key of one field and the Python name of another; `{"labels": null}` is not `[]`), and the
+    round trip is no longer the identity.  Decided: the first argument of that call is the hook's own first parameter, never re-bound."""
+    conv = repo.module("core.cattrs_converter")
+    n = 0
+    for maker in ("_make_dataclass_structure_fn", "_make_dataclass_unstructure_fn"):
+        for q, fn in sorted(conv.functions.items()):
+            for c in calls_in(fn.node):
+                if not (isinstance(c.func, ast.Call) and (dotted(c.func.func) or "").split(".")[-1] == maker and c.args):
+                    continue
+                # the innermost function definition that contains the call
+                owner = None
+                for d in ast.walk(fn.node):
+                    if isinstance(d, (ast.FunctionDef, ast.AsyncFunctionDef, ast.Lambda)) and any(x is c for x in ast.walk(d)):
+                        if owner is None or any(x is d for x in ast.walk(owner)):
+                            owner = d
+                if owner is None:
+                    continue
+                params = [a.arg for a in owner.args.args if a.arg != "self"]
+                n += 1
+                sub = f"{conv.relpath}:{q} hook -> {maker}(cls)(<value>)"
+                a0 = c.args[0]
+                body_nodes = list(ast.walk(owner))
+                rebound = [st for st in body_nodes if isinstance(st, (ast.Assign, ast.AugAssign, ast.AnnAssign)) and any(
+                    isinstance(t, ast.Name) and params and t.id == params[0] for t in (st.targets if isinstance(st, ast.Assign) else [st.target]))]
+                if isinstance(a0, ast.Name) and params and a0.id == params[0] and not rebound:
+                    rep.ok(rule, sub, f"`{a0.id}` is handed on as received", fn.loc(c))
+                else:
+                    what = norm(rebound[0])[:60] if rebound else norm(a0)[:60]
+                    rep.violation(rule, sub, f"{fn.fq}|hook-rewrites-value|{maker}",
+                                  f"`{what}`: the value is rewritten before the generated function (which applies the Meta key maps) sees it - a conforming document is decoded into "
+                                  "another instance than it describes / an instance is encoded into another document, and decode-encode is no longer the identity", fn.loc(c))
+    rep.require(n >= 2, f"{rule}: only {n} hook call(s) `_make_dataclass_(un)structure_fn(cls)(...)` found (floor 2)")
